@@ -540,7 +540,7 @@ func (self *FieldMask) ForEachChild(scanner func(strKey string, intKey int, chil
 		return
 	}
 	switch self.typ {
-	case FtScalar:
+	case FtInvalid, FtScalar:
 		return
 	case FtStruct:
 		fm := self.fdMask
